@@ -142,3 +142,16 @@ Proof.
     destruct l as [|y l']; [exact H3|]. apply (IHl (h_end x) Hr). discriminate. }
   pose proof (G (c :: r) 0 H ltac:(discriminate)). lia.
 Qed.
+
+(* after any sequence of runs into the same result folder a result file holds exactly the lines of
+   the LAST run *)
+Lemma after_runs_last {A : Type} (runs : list (list A)) : forall (file last : list A),
+  after_runs file (runs ++ [last]) = last.
+Proof.
+  induction runs as [|r runs IH]; intros file last; [reflexivity|]. cbn [app after_runs]. apply IH.
+Qed.
+
+(* the limit made visible: without truncation a shorter run after a longer one keeps the old tail *)
+Lemma keep_tail_refuted_lemma :
+  exists old new : list nat, write_run_keep old new <> new /\ write_run old new = new.
+Proof. exists [1; 2; 3]%nat, [7]%nat. split; [discriminate | reflexivity]. Qed.
